@@ -230,6 +230,21 @@ def trace_corpus(res, tier):
     return trace
 
 
+def excerpt(out, width=400, follow=14):
+    """rustc prints whole source lines and unformatted bindings are one line: keep, for every diagnostic,
+    its head line and the next few lines, each cut to `width` characters"""
+    lines = out.split("\n")
+    keep, left = [], 0
+    for ln in lines:
+        if re.match(r"(error|warning: unused)", ln):
+            left = follow
+            keep.append(ln[:width])
+        elif left > 0:
+            left -= 1
+            keep.append(ln[:width] if len(ln) <= width else ln[:width // 2] + " ... " + ln[-width // 2:])
+    return "\n".join(keep)[:200000]
+
+
 def rustc_batch(texts, workdir, name, edition="2021"):
     """Compile many bindings texts as separate modules of one crate; returns list of failing indexes."""
     def compile_(idx):
@@ -251,7 +266,7 @@ def rustc_batch(texts, workdir, name, edition="2021"):
         return [], ""
     # bisect
     bad = []
-    first_msg = out[-30000:]
+    first_msg = excerpt(out)
 
     def rec(idx):
         if not idx:
